@@ -254,6 +254,33 @@ def run(check, repo: Repo) -> None:
     if len(tup) != 1 or not isinstance(tup[0].value, ast.Tuple) or len(tup[0].value.elts) != 2:
         raise AnalysisError("_set_intensities_com: self.com_measured = (r, c) not found")
     slot_names = [unparse(e) for e in tup[0].value.elts]
+    # the detector mask is a WEIGHT in both arms (it multiplies the intensities); comparing it with a threshold or indexing with it binarises
+    # fractional weights and the two arms (and the float64 definition) disagree
+    mparams = [p_ for p_ in func_params(sfn) if "mask" in p_]
+    for arm_label, stmts in (("vectorised", vec), ("looped", lop)):
+        fake_ = ast.Module(body=list(stmts), type_ignores=[])
+        for mp in mparams:
+            uses_ = [x for x in ast.walk(fake_) if isinstance(x, ast.Name) and x.id == mp]
+            if not uses_:
+                continue
+            bad_ = []
+            for u_ in uses_:
+                # climb through attribute/method chains on the mask (dp_mask.ravel(), dp_mask[None], dp_mask.astype(...))
+                top_ = u_
+                par_ = getattr(top_, "_parent", None)
+                while isinstance(par_, (ast.Attribute, ast.Subscript, ast.Call)) and (getattr(par_, "value", None) is top_ or getattr(par_, "func", None) is top_):
+                    top_, par_ = par_, getattr(par_, "_parent", None)
+                if isinstance(par_, ast.Compare):
+                    if len(par_.ops) == 1 and isinstance(par_.ops[0], (ast.Is, ast.IsNot)):
+                        continue  # presence test
+                    bad_.append(unparse(par_)[:50])
+                elif isinstance(par_, ast.Subscript) and par_.slice is top_ or (isinstance(par_, ast.Tuple) and isinstance(getattr(par_, "_parent", None), ast.Subscript)):
+                    bad_.append(unparse(getattr(par_, "_parent", par_) if isinstance(par_, ast.Tuple) else par_)[:50])
+                elif isinstance(par_, ast.Call) and (call_name(par_) or "").split(".")[-1] in ("astype", "where", "nonzero", "flatnonzero") and any("bool" in unparse(a_) for a_ in par_.args):
+                    bad_.append(unparse(par_)[:50])
+            check.decide(not bad_, "C18-R2", f"_set_intensities_com[arm={arm_label}]: `{mp}` enters as a multiplicative weight (never thresholded or used as an index)", "", dmod.line(stmts[0]),
+                         fail_detail=f"{bad_}: a fractional-weight mask is treated as binary in this arm — the centre of mass is no longer the mask-weighted mean and the vectorised and looped "
+                                     f"paths disagree")
     arm_infos = {}
     for arm_label, stmts in (("vectorised", vec), ("looped", lop)):
         inner = stmts
@@ -288,6 +315,16 @@ def run(check, repo: Repo) -> None:
                      unparse(st[0].args[0].elts[slot]), pmod.line(st[0]),
                      fail_detail=f"slot {slot} uses `{unparse(st[0].args[0].elts[slot])}` ({getattr(v, 'axis', '?')}-axis)")
     check.floor("centre-of-mass implementations analysed", n_impl, 4)
+
+    # ---- R6 the pipeline entry recomputes the measured origin from the CURRENT data on every call ----------------------------------
+    from ..core.cfg import CFG
+    _, fwd = repo.func(f"{OM}:CenterOfMassOriginModel.forward")
+    check.analysed(f"{OM}:CenterOfMassOriginModel.forward")
+    fcfg = CFG(fwd)
+    cal = [n for c in calls_in(fwd) if (call_name(c) or "") == "self.calculate_origin" for n in fcfg.node_containing(c)]
+    check.decide(bool(cal) and fcfg.all_paths_pass_through(fcfg.entry, fcfg.exit, cal), "C18-R6", "CenterOfMassOriginModel.forward measures the origins on every call (no 'already measured' shortcut)", "",
+                 omod.line(fwd), fail_detail="a path through forward() skips calculate_origin(): after the tensor is replaced (its setter does not invalidate the cached origins) measured and fitted "
+                                             "origins and the shifted patterns describe the OLD data — not the intensity-weighted mean coordinate of the current patterns")
 
     # ---- R4 shift_origin_to -------------------------------------------------------------------------------
     _shift_rule(check, omod, shf)
